@@ -31,7 +31,7 @@ def run(tier, scratch, record=False):
     vlib.require_tlc_ok(res, cfg)
     paths = res.prints.get("PATH") or []
     docs = (res.prints.get("DOCS") or [[]])[0]
-    if len(paths) < 1000 or len(docs) != 4:
+    if len(paths) < 1000 or len(docs) < 4:
         raise vlib.Infra("PathEval exported %d paths, %d docs" % (len(paths), len(docs)))
     paths.sort(key=lambda p: (len(p["path"]), p["path"]))
     cp = os.path.join(scratch.path, "patheval.ndjson")
